@@ -20,7 +20,7 @@
     entry writers satisfy [writer_ok] (proved for the fresh bowl below; for the overlay entry
     writer this is C14's "sessions" statement); [ReadContext.Resume] restarts at the reader
     offset of the checkpoint (C13). *)
-From Wharf Require Import Base.Prelude Patch.Resume Patch.ResumeProofs Patch.ResumeLive Patch.PlainWriter Patch.ResumeExample.
+From Wharf Require Import Base.Prelude Patch.Resume Patch.ResumeProofs Patch.ResumeLive Patch.PlainWriter Patch.OverlayBowl Patch.ResumeExample.
 
 (** Safety, any bowl whose entry writers satisfy the contract: resuming from any offered
     checkpoint on any crash disk, under any save consumer of the resumed run, either completes
@@ -121,17 +121,46 @@ Theorem saving_transparent :
 Proof. exact saving_transparent_lemma. Qed.
 Print Assumptions saving_transparent.
 
-(** The fresh bowl's entry writer ([freshEntryWriter]: reopen without truncation, seek to the
-    saved offset), its creation ([Prepare]: truncate to the final size) and [Transpose]
-    satisfy the writer contract - so for fresh application the theorems above hold without it. *)
+(** [freshEntryWriter] (reopen without truncation, seek to the saved offset), the creation of a
+    fresh bowl ([Prepare]: truncate to the final size) and [freshBowl.Transpose] satisfy the
+    writer contract - so for fresh application ([fr = true]) the theorems above hold without
+    that hypothesis. *)
 Theorem fresh_writer_contract :
   forall (ssize tsize : N -> N) (old : N -> list byte),
     (forall t : N, length (old t) = N.to_nat (tsize t)) ->
+    forall fr : bool,
     writer_ok (list byte) (list byte) (list byte) N unit (fun d : list byte => N.of_nat (length d)) tsize ssize
-              p_open p_write p_save p_final p_tell p_result true (p_prepare ssize) (p_copy_old old) old
+              p_open p_write p_save p_final p_tell p_result fr (p_prepare ssize) (p_copy_old old) old
               (fun c d : list byte => c ++ d) [] p_abs (p_inv ssize) (p_raw_ok ssize) p_covers (p_finished ssize).
 Proof. exact plain_writer_ok. Qed.
 Print Assumptions fresh_writer_contract.
+
+(** In-place application: the overlay bowl hands out a [freshEntryWriter] on a stage file for
+    a new path and an [overlayEntryWriter] for a path that exists in the old build
+    ([d_open] ... [d_result] model that dispatch).  If the overlay entry writer satisfies the
+    contract (C14: sessions continue each other at the saved (ReadOffset, OverlayOffset), the
+    end marker hides stale bytes), so does the bowl's writer - hence [resume_equiv],
+    [resume_completes] and [saving_transparent] hold for in-place application with that one
+    hypothesis about the overlay writer. *)
+Theorem overlay_bowl_writer_contract :
+  forall (WS2 WCK2 : Type) (is_overlay : N -> bool) (tsize ssize : N -> N) (old : N -> list byte)
+         (o2 : N -> option (N * WCK2) -> list byte -> option (WS2 * list byte))
+         (wr2 : N -> WS2 -> list byte -> list byte -> WS2 * list byte)
+         (sv2 : N -> WS2 -> list byte -> (N * WCK2) * WS2 * list byte)
+         (fi2 : N -> WS2 -> list byte -> list byte) (te2 : WS2 -> N) (re2 : N -> list byte -> option (list byte))
+         (abs2 : N -> WS2 -> list byte -> list byte) (inv2 : N -> WS2 -> list byte -> Prop) (ok2 : N -> list byte -> Prop)
+         (cov2 : N -> N * WCK2 -> list byte -> list byte -> Prop) (fin2 : N -> list byte -> list byte -> Prop),
+    (forall t, length (old t) = N.to_nat (tsize t)) ->
+    writer_ok (list byte) (list byte) (list byte) WS2 WCK2 (fun d => N.of_nat (length d)) tsize ssize o2 wr2 sv2 fi2 te2 re2 false
+              (p_prepare ssize) (p_copy_old old) old (fun c d => c ++ d) [] abs2 inv2 ok2 cov2 fin2 ->
+    writer_ok (list byte) (list byte) (list byte) (N + WS2) (unit + WCK2) (fun d => N.of_nat (length d)) tsize ssize
+              (d_open _ _ _ _ _ is_overlay p_open o2) (d_write _ _ _ _ p_write wr2) (d_save _ _ _ _ _ p_save sv2)
+              (d_final _ _ _ p_final fi2) (d_tell _ _ p_tell te2) (d_result _ _ is_overlay p_result re2) false
+              (p_prepare ssize) (p_copy_old old) old (fun c d => c ++ d) []
+              (d_abs _ _ _ _ p_abs abs2) (d_inv _ _ _ is_overlay (p_inv ssize) inv2) (d_raw_ok _ is_overlay (p_raw_ok ssize) ok2)
+              (d_covers _ _ _ is_overlay p_covers cov2) (d_finished _ _ is_overlay (p_finished ssize) fin2).
+Proof. exact overlay_bowl_writer_ok. Qed.
+Print Assumptions overlay_bowl_writer_contract.
 
 (** Safety for fresh application, bytes and all: if the crash disk still has the first
     [ck_woff] bytes of the in-progress output file (whatever follows them, whatever its length)
